@@ -26,6 +26,8 @@ func TestReplay_Front(t *testing.T) {
 	frontReplay("TestProp_C17_InboundConcurrent", runC17C)
 	frontReplay("TestProp_C08_ReloadWindow", runC18)
 	frontReplay("TestProp_C11_AfterReload", runC18)
+	frontReplay("TestProp_C15_AfterReload", runC18)
+	frontReplay("TestProp_C12_AfterReload", runC18)
 	frontReplay("TestProp_C05_PublishTarget", runC15)
 	frontReplay("TestProp_C02_StoreWiring", swRun("C02"))
 	frontReplay("TestProp_C01_StoreWiring", swRun("C01"))
